@@ -14,37 +14,15 @@
 (* specification instantiated at the REAL constants (BigInt carrier).       *)
 (* Acceptance: every line consumed (POSTCONDITION on the diameter).         *)
 (***************************************************************************)
-EXTENDS Integers, Sequences, FiniteSets, TLC, Json, IOUtils, Real
+EXTENDS Json, IOUtils, RealSpec
 
 Rec == ndJsonDeserialize(IOEnv.TRACE)
 Start == IF "TRACE_START" \in DOMAIN IOEnv THEN atoi(IOEnv.TRACE_START) ELSE 1
 
 VARIABLES l,        \* next line of the trace
-          d, out,   \* Duration machine (DurationMachine)
-          e, eout,  \* Epoch machine (EpochMachine)
-          sw,       \* previous item of a sorted sweep (monotonicity along recorded sequences)
-          ser, sout,\* TimeSeries machine (SeriesMachine)
-          w, wout   \* Weekday machine (WeekdayMachine)
+          sw        \* previous item of a sorted sweep (monotonicity along recorded sequences)
 
 vars == <<l, d, out, e, eout, sw, ser, sout, w, wout>>
-
-M == INSTANCE DurationMachine WITH
-       NPC <- NPCr, CMIN <- -32768, CMAX <- 32767,
-       N <- B!FromInt, I <- B!ToInt,
-       Add <- B!Add, Sub <- B!Sub, Mul <- B!Mul, QuotT <- B!QuotT,
-       DivF <- B!DivF, ModF <- B!ModF, Lt <- B!Lt, Le <- B!Le, U <- Ur
-
-(* closed-form centre of the dynamical scales: defined below (C07) *)
-DynCenterR(ts, v) == B!Sub(B!Add(v, J2000Ns), Msec(32184))
-
-X == INSTANCE SeriesMachine WITH
-       NPC <- NPCr, CMIN <- -32768, CMAX <- 32767,
-       N <- B!FromInt, I <- B!ToInt,
-       Add <- B!Add, Sub <- B!Sub, Mul <- B!Mul, QuotT <- B!QuotT,
-       DivF <- B!DivF, ModF <- B!ModF, Lt <- B!Lt, Le <- B!Le, U <- Ur,
-       Ref <- RefR, Leap <- LeapR, GregDay <- GregDayR, GregTod <- GregTodR,
-       DynCenter <- DynCenterR, DynTol <- B!FromInt(30), FarTol <- B!FromInt(100)
-W == INSTANCE WeekdayMachine
 
 -----------------------------------------------------------------------------
 E == Rec[l]
@@ -333,6 +311,11 @@ Dev_F11 ==
           /\ e' = EV(E.res) /\ eout' = <<"greg", TRUE>>
           /\ (F11Exact => e' = X!Ep(E.ts, X!FromFieldsRaw(E.ts, E.y, E.m, E.d, E.hh, E.mi, E.ss, E.ns)))
       \/ /\ IsOp("is_valid") /\ F11Class /\ KeepD /\ KeepE /\ Has(E.res, "v") /\ E.res.v = TRUE
+      \/ /\ IsOp("parse_epoch") /\ KeepD /\ UNCHANGED sw /\ IsEp(E.res) /\
+             LET p == X!ParseIso(E.s) IN
+               /\ p.g /\ p.m = 2 /\ p.d \in {30, 31} /\ Cal!IsLeap(p.y) /\ p.oh <= 23 /\ p.om <= 59
+               /\ X!MustAccept(p.y, 2, 29, p.hh, p.mi, p.ss, p.ns) /\ p.ss < 60
+               /\ e' = X!Ep(p.ts, X!IsoValue(p)) /\ EpIs(E.res, e') /\ eout' = <<"parsed", TRUE>>
   /\ Known("F11")
 
 EpochNext1 ==
@@ -353,7 +336,7 @@ Dev_F1E ==
   /\ EpIs(E.res, e') /\ eout' = <<"epoch", e'>>
   /\ Known("F1")
 
-EpochNext == TrSweepUtc \/ (UNCHANGED sw /\ EpochNext1) \/ Dev_F27 \/ Dev_F11 \/ Dev_F1E
+EpochNext == ((TrSweepUtc \/ (UNCHANGED sw /\ EpochNext1) \/ Dev_F27 \/ Dev_F1E) /\ KeepS /\ KeepW) \/ (Dev_F11 /\ KeepS /\ KeepW)
 
 -----------------------------------------------------------------------------
 (* TimeSeries machine: C15 *)
@@ -377,11 +360,92 @@ TrWdDiff   == IsOp("wd_diff") /\ W!WDiff(E.b) /\ DurIs(E.res, B!Mul(B!FromInt(wo
 WeekdayNext == TrWdFromU8 \/ TrWdFromI8 \/ TrWdAddU8 \/ TrWdSubU8 \/ TrWdAddW \/ TrWdDiff
 
 -----------------------------------------------------------------------------
+(* Text: C09 (Display), C10 (round trips), C11 (duration text), C13 (totality), C19 (formats) *)
+TextIs(r, x) == Has(r, "v") /\ r.v = x
+KeepAll == KeepD /\ KeepE /\ KeepS /\ KeepW
+
+(* the scale a form prints in *)
+FormScale == CASE E.form \in {"display", "iso8601", "isoformat"} -> e.ts
+               [] E.form \in {"debug", "rfc3339"} -> X!UTC [] E.form = "lowerhex" -> X!TAI [] E.form = "upperhex" -> X!TT
+               [] E.form = "lowerexp" -> X!TDB [] E.form = "upperexp" -> X!ET [] OTHER -> E.to
+FormText(ts, v) ==
+  CASE E.form = "rfc3339"   -> X!Rfc3339(v)
+    [] E.form = "iso8601"   -> X!DateTimeText(X!Fields(ts, v), TRUE) \o <<32>> \o X!ScaleName(ts)
+    [] E.form = "isoformat" -> SubSeq(X!DateTimeText(X!Fields(ts, v), TRUE), 1, 26)
+    [] OTHER                -> X!Display(ts, v)
+TrFmtEpoch == IsOp("fmt_epoch") /\ KeepAll /\ Has(E.res, "v") /\
+      LET ts == FormScale IN
+        /\ (ts \in X!Dynamic => ts = e.ts)
+        /\ \E rc \in ConvCands(ts) : E.res.v = FormText(ts, rc.v)
+TrAccessors == IsOp("accessors") /\ KeepAll /\ Has(E.res, "year") /\
+      LET f == X!Fields(e.ts, e.v) IN E.res.year = f[1] /\ E.res.month = f[2]
+(* Epoch::hours() ... nanoseconds(): the decomposition of the elapsed time *)
+TrEpochHms == IsOp("epoch_hms") /\ KeepAll /\ Has(E.res, "v") /\
+      LET x == M!Decompose(e.v) IN \A k \in 1..6 : Mg(E.res.v[k]) = x[k + 2]
+
+(* parsing an epoch: value or error, never a panic; in-grammar sentences have their value *)
+TrParseEpoch == IsOp("parse_epoch") /\ KeepD /\ KeepS /\ KeepW /\ UNCHANGED sw /\
+      LET ok == IsEp(E.res)
+          r  == IF ok THEN EV(E.res) ELSE e IN
+        /\ (ok \/ Has(E.res, "err"))
+        /\ X!ParseEpochOK(E.s, ok, r)
+        /\ (ok => M!Canonical(<<E.res.c, Mg(E.res.n)>>))
+        /\ e' = r /\ eout' = <<"parsed", ok>>
+
+(* duration text *)
+TrFmtDur == IsOp("fmt_dur") /\ KeepAll /\ TextIs(E.res, X!Show(d))
+TrParseDur == IsOp("parse_dur") /\ KeepE /\ KeepS /\ KeepW /\
+      LET ok == IsDur(E.res)
+          r  == IF ok THEN DV(E.res) ELSE d IN
+        /\ (ok \/ Has(E.res, "err"))
+        /\ X!ParseDurationOK(E.s, ok, r)
+        /\ (ok => M!Canonical(<<E.res.c, Mg(E.res.n)>>))
+        /\ d' = r /\ out' = <<"parsed", ok>>
+TrSubdivision == IsOp("subdivision") /\ KeepAll /\
+      LET x == M!Decompose(d) IN
+        IF E.u \in {8, 9} THEN Has(E.res, "none")
+        ELSE DurIs(E.res, B!Mul(x[9 - E.u], Ur[E.u]))
+
+(* the other parsers: a value or an error, never a panic or a hang (C13) *)
+TrTotality == IsOp("totality") /\ KeepAll /\ (Has(E.res, "ok") \/ Has(E.res, "err"))
+TrParseScale == IsOp("parse_scale") /\ KeepAll /\
+      LET ts == X!ScaleOfName(X!Trim(E.s)) IN
+        IF ts >= 0 THEN TextIs(E.res, ts) ELSE Has(E.res, "err")
+
+(* formats *)
+TrFmtFromStr == IsOp("fmt_from_str") /\ KeepAll /\
+      IF X!ParseFormat(E.s).ok THEN Has(E.res, "ok") ELSE Has(E.res, "err")
+(* Formatter::new / with_timezone / to_time_scale + Display, for formats built from judged tokens *)
+TrRender == IsOp("render") /\ KeepAll /\ Has(E.res, "v") /\
+      LET pf == X!ParseFormat(E.fmt) IN
+        pf.ok /\ (X!AllJudged(pf.items) =>
+          \E rc \in ConvCands(E.to) : E.res.v = X!Render(pf.items, E.to, rc.v, DV(E.off)))
+(* each predefined format is the format its documentation states *)
+TrConstEq == IsOp("const_eq") /\ KeepAll /\ E.doc = X!DocOf(E.name) /\ TextIs(E.res, TRUE)
+TrRenderConst == IsOp("render_const") /\ KeepAll /\ Has(E.res, "v") /\
+      E.res.v = X!Render(X!ParseFormat(X!DocOf(E.name)).items, e.ts, e.v, DV(E.off))
+(* parse with a format: total; and the rendering of a UTC epoch parses back to it *)
+TrFmtParse == IsOp("fmt_parse") /\ KeepAll /\
+      LET ok == IsEp(E.res)
+          pf == X!ParseFormat(E.fmt) IN
+        /\ (ok \/ Has(E.res, "err"))
+        /\ (pf.ok /\ e.ts = X!UTC /\ X!RoundTrippable(pf.items)
+             /\ (X!HasTok(pf.items, X!tf) \/ X!Fields(X!UTC, e.v)[7] = 0)
+             /\ X!Fields(X!UTC, e.v)[1] \in 1..9999
+             /\ E.s = X!Render(pf.items, X!UTC, e.v, B!Zero))
+            => (ok /\ EV(E.res) = e)
+
+TextNext ==
+  \/ TrFmtEpoch \/ TrAccessors \/ TrEpochHms \/ TrParseEpoch \/ TrFmtDur \/ TrParseDur \/ TrSubdivision
+  \/ TrTotality \/ TrParseScale \/ TrFmtFromStr \/ TrRender \/ TrConstEq \/ TrRenderConst \/ TrFmtParse
+
+-----------------------------------------------------------------------------
 TraceInit == l = Start /\ M!DInit /\ X!EInit /\ sw = B!Zero /\ X!SInit /\ W!WInit
 TraceNext == \/ (DurationNext /\ KeepE /\ KeepS /\ KeepW)
-             \/ (EpochNext /\ KeepS /\ KeepW)
+             \/ EpochNext
              \/ (SeriesNext /\ KeepD /\ KeepE /\ KeepW)
              \/ (WeekdayNext /\ KeepD /\ KeepE /\ KeepS)
+             \/ TextNext
 TraceSpec == TraceInit /\ [][TraceNext]_vars
 
 (* invariants evaluated at every step of every validated trace *)
